@@ -304,7 +304,7 @@ class Check:
         os.makedirs(REPLAYS, exist_ok=True)
         body = dict(v['replay']) if isinstance(v['replay'], dict) else {'data': v['replay']}
         body.update({'property': self.prop, 'signature': v['signature'], 'what': v['what'], 'seed': self.seed,
-                     'kind': 'input' if v['found_input'] else 'obligation'})
+                     'found': 'input' if v['found_input'] else 'obligation'})
         s = json.dumps(body, indent=1, sort_keys=True, default=str)
         h = hashlib.sha1(s.encode()).hexdigest()[:10]
         path = os.path.join(REPLAYS, '%s-%s.json' % (self.prop, h))
